@@ -76,7 +76,7 @@ def interior_geometry(con, d, rng):
     return X
 
 
-def check_case(case, seed, entity_mode="random", options_override=None, want_numba=False, exact_ref=None, affine=False):
+def check_case(case, seed, entity_mode="random", options_override=None, want_numba=False, exact_ref=None, affine=False, renumber=False):
     out = {"id": case["id"], "code": case["code"], "status": "ok", "kernels": []}
     rng = np.random.default_rng(seed)
     try:
@@ -128,6 +128,10 @@ def check_case(case, seed, entity_mode="random", options_override=None, want_num
                     dd, cells = affine_geometry(dd, cells, con, itg.domain, rng)
                 if itype == "interior_facet":
                     cells, dd = mirror_cells(cells, dd, con, ent, itg.domain, rng)
+                fminus, sigma = None, None
+                if renumber and itype == "interior_facet":
+                    cells, dd, fminus, sigma = renumber_minus(cells, dd, con, ent, itg.domain, rng)
+                    e = [ent, fminus]
                 dd["e"][: len(e)] = e
                 dd["p"][:] = 0          # identical local numbering on both sides: permutation code 0
                 # prism facets have two types: a kernel exists per quadrature cell type
@@ -137,6 +141,17 @@ def check_case(case, seed, entity_mode="random", options_override=None, want_num
                 A = np.zeros_like(dd["A"])
                 runc.call_kernel(b.kernel(kr["name"]), A, dd["w"], dd["c"], dd["x"], dd["e"], dd["p"])
                 sc = complex if "complex" in scalar else float
+                candidates = [A]
+                if fminus is not None:
+                    # '+' keeps code 0; some code of the '-' side must make the points of both sides coincide
+                    candidates = []
+                    for code in range(max(con["p_range"][1], 1)):
+                        dd["p"][:] = 0
+                        if len(dd["p"]) > 1:
+                            dd["p"][1] = code
+                        Ak = np.zeros_like(dd["A"])
+                        runc.call_kernel(b.kernel(kr["name"]), Ak, dd["w"], dd["c"], dd["x"], dd["e"], dd["p"])
+                        candidates.append(Ak)
                 oform = fd.original_form
                 if k["ir"].part.name == "diagonal":
                     # diagonal of the form the user wrote, not of what compile_forms made of it
@@ -151,12 +166,17 @@ def check_case(case, seed, entity_mode="random", options_override=None, want_num
                         return md
                     oform = ufl.Form([g.reconstruct(metadata=_md(g)) for g in oform.integrals()])
                 exp = oracle.reference_tensor(oform, itype, sid, cells, wvals, cvals, e or [0], scalar=sc,
-                                              diagonal=(k["ir"].part.name == "diagonal"))
+                                              diagonal=(k["ir"].part.name == "diagonal"), match_physical=fminus is not None)
                 exp = np.asarray(exp).reshape(-1)
                 tol = (2e-4 if "32" in scalar or "64" == scalar[-2:] and "complex64" == scalar else 1e-9)
                 tol = 2e-4 if scalar in ("float32", "complex64") else 1e-9
                 scale = max(np.max(np.abs(exp)), 1e-12)
-                err = float(np.max(np.abs(A - exp)) / scale)
+                errs = [float(np.max(np.abs(Ak - exp)) / scale) for Ak in candidates]
+                err = min(errs)
+                A = candidates[int(np.argmin(errs))]
+                if fminus is not None:
+                    kr.setdefault("codes", []).append({"sigma": sigma, "facets": [int(ent), int(fminus)], "matching_code": int(np.argmin(errs)),
+                                                       "codes_within_tol": [i for i, x in enumerate(errs) if x <= tol]})
                 worst = max(worst, err)
                 if err > tol:
                     kr.update(status="mismatch", entity=ent, error=err, observed=[complex(x) if sc is complex else float(x) for x in A[:12]],
@@ -195,6 +215,52 @@ def affine_geometry(dd, cells, con, mesh, rng):
         dd["x"][s * 3 * nn:(s + 1) * 3 * nn] = blk.reshape(-1)
     cells = [oracle.Cell(mesh, dd["x"][s * 3 * nn:(s + 1) * 3 * nn]) for s in range(width)]
     return dd, cells
+
+
+def cell_symmetries(cellname):
+    """vertex permutations that are valid renumberings of the reference cell (sigma[new] = old)."""
+    import itertools
+
+    import basix
+    ct = getattr(basix.CellType, cellname)
+    G = np.asarray(basix.geometry(ct))
+    nv, d = G.shape
+    if cellname in ("interval", "triangle", "tetrahedron"):
+        return [list(p) for p in itertools.permutations(range(nv))]
+    out = []
+    for axes in itertools.permutations(range(d)):
+        for flips in itertools.product((0, 1), repeat=d):
+            T = G[:, list(axes)]
+            T = np.where(np.array(flips)[None, :] == 1, 1.0 - T, T)
+            sig = [int(np.argmin(np.linalg.norm(G - T[i], axis=1))) for i in range(nv)]
+            if sorted(sig) == list(range(nv)):
+                out.append(sig)
+    return out
+
+
+def renumber_minus(cells, dd, con, ent, mesh, rng):
+    """give the '-' cell (so far the mirror image of '+' with the same numbering) another valid local
+    numbering; returns the new cells, data and the '-' local facet index of the shared facet."""
+    import basix
+    cm = cells[1]
+    if cm.be.degree > 1:
+        raise oracle.Unsupported("renumbering of higher-order geometry")
+    ct = getattr(basix.CellType, cm.cellname)
+    topo = basix.topology(ct)
+    shared = set(topo[cm.tdim - 1][ent])
+    syms = cell_symmetries(cm.cellname)
+    sig = syms[int(rng.integers(0, len(syms)))]
+    newc = cm.coords[sig]                      # new vertex i sits where old vertex sig[i] sat
+    fminus = [f for f, vs in enumerate(topo[cm.tdim - 1]) if {sig[i] for i in vs} == shared]
+    if len(fminus) != 1:
+        raise oracle.Unsupported("renumbering does not keep the facet")
+    nn = cm.coords.shape[0]
+    pad = np.zeros((nn, 3))
+    pad[:, : cm.gdim] = newc
+    x = dd["x"].copy()
+    x[3 * nn:] = pad.reshape(-1)
+    dd["x"] = x
+    return [cells[0], oracle.Cell(mesh, x[3 * nn:])], dd, fminus[0], sig
 
 
 def mirror_cells(cells, dd, con, ent, mesh, rng):
@@ -248,7 +314,7 @@ def main():
             else:
                 r = check_case(case, job.get("seed", 0) + i, entity_mode=job.get("entity_mode", "random"),
                                options_override=job.get("options_override"), exact_ref=job.get("exact_ref"),
-                               affine=job.get("affine", False))
+                               affine=job.get("affine", False), renumber=job.get("renumber", False))
         except CaseTimeout:
             r = {"id": case["id"], "code": case["code"], "status": "timeout", "kernels": []}
         except BaseException as e:  # noqa: BLE001
